@@ -151,7 +151,7 @@ def split_items(text):
 AP_FORMS = [(None, 'f'), ('false', 'f'), ('true', 'y'), ('"any"', 'y'), ('"string"', 'ts'), ('"integer"', 'ti'), ('"float"', 'tn'), ('"boolean"', 'tb')]
 # every type name of the vocabulary as written: the model maps the name (Model/OasTree.v ap_of_name)
 AP_FORMS += [('"%s"' % n, 'w' + n.encode().hex()) for n in ['any', 'enum', 'mixed', 'string', 'integer', 'float', 'decimal', 'boolean', 'null', 'array', 'object',
-                                                              'email', 'uri', 'uuid', 'date', 'datetime']]
+                                                              'email', 'uri', 'uuid', 'date', 'datetime', '@t', '@u', '@o', '@r']]
 TKEYS = ['"a"', '"b c"', '"\\u00e9"', '"k\\"q"', '"\\\\"', '"0"', '"#"', '"t\\tab"', '""']
 
 
@@ -193,6 +193,8 @@ def gen_tree(rng, depth, pool):
     """('V', ex, kind, rules) | ('A', items, min, max, nullable) | ('O', [(key, optional, node)], ap, nullable) - no references"""
     r = rng.random()
     if depth >= 3 or r < 0.4:
+        if rng.random() < 0.12:       # the value is written as a type name (registered types of c04.TYPES; @r and @l are recursive)
+            return ('F', rng.choice(['@t', '@u', '@o', '@r', '@l']), rng.random() < 0.25)
         if rng.random() < 0.25:
             return gen_or(rng)
         ex, kind, rules = rng.choice(pool)
@@ -220,6 +222,8 @@ def tree_text(t, indent, extra, comma):
     pad = '  ' * indent
     if t[0] == 'V':
         return t[1] + comma + ann_of(list(t[3]) + extra)
+    if t[0] == 'F':
+        return t[1] + comma + ann_of(([('nullable', 'true')] if t[2] else []) + extra)
     if t[0] == 'R':
         return t[1] + comma + ann_of([('or', '[' + ', '.join(a[0] for a in t[2]) + ']')] + ([('nullable', 'true')] if t[3] else []) + extra)
     if t[0] == 'A':
@@ -234,6 +238,8 @@ def tree_text(t, indent, extra, comma):
 def tree_tokens(t):
     if t[0] == 'V':
         return ['V', hx(t[1])] + leaf_tokens(t[2], t[3])
+    if t[0] == 'F':
+        return ['F', hx(t[1][1:]), '1' if t[2] else '0']
     if t[0] == 'R':
         out = ['R', hx(t[1]), str(len(t[2])), '1' if t[3] else '0']
         for a in t[2]:
@@ -283,6 +289,11 @@ def canon_node(o):
     if not isinstance(o, dict):
         return 'notanobject'
     t = o.get('type')
+    REF = '#/components/schemas/'
+    if set(o.keys()) == {'$ref'} and o['$ref'].startswith(REF):
+        return 'F(' + hx(o['$ref'][len(REF):]) + ')'
+    if set(o.keys()) == {'allOf', 'nullable'} and o['nullable'] is True and len(o['allOf']) == 1 and set(o['allOf'][0].keys()) == {'$ref'}:
+        return 'F(nullable;' + hx(o['allOf'][0]['$ref'][len(REF):]) + ')'
     if 'anyOf' in o and t is None:
         return 'Y(' + ';'.join((['nullable'] if o.get('nullable') is True else []) + ['[' + ','.join(canon_node(x) for x in o['anyOf']) + ']']) + ')'
     if t == 'array':
@@ -298,7 +309,8 @@ def canon_node(o):
                't:%s' % ap['type'] if set(ap.keys()) == {'type'} else
                'null' if ap == {'enum': [None]} else 'array' if ap == {'type': 'array', 'items': {}} else
                'object' if ap == {'type': 'object', 'properties': {}, 'additionalProperties': False} else
-               't:string:%s' % ap['format'] if set(ap.keys()) == {'type', 'format'} and ap['type'] == 'string' else 'other')
+               't:string:%s' % ap['format'] if set(ap.keys()) == {'type', 'format'} and ap['type'] == 'string' else
+               'ref:' + hx(ap['$ref'][len(REF):]) if set(ap.keys()) == {'$ref'} and ap['$ref'].startswith(REF) else 'other')
         parts = ['req=[' + ','.join(hx(k) for k in o.get('required', [])) + ']', 'ap=' + apc]
         parts += ['nullable'] if o.get('nullable') is True else []
         parts.append('{' + ','.join(hx(k) + ':' + canon_node(v) for k, v in o.get('properties', {}).items()) + '}')
